@@ -106,6 +106,8 @@ def configure(cfg):
     bg, dg = sch.types['B'].content, sch.types['D'].content
     dparts = S.particles_preorder(dg)
     names = sorted({S.q(n[1].split(':')[0]) for n in S.nodes_preorder(base) + S.nodes_preorder(derived) if n[0] == 'e'} | {S.q('m'), S.q('z'), '{ext}x'})
+    if any(n[0] == 'w' for n in S.nodes_preorder(derived)):
+        names.append('l')          # a name in no namespace: wildcard-to-wildcard restrictions differ on it
     words = [list(w) for ln in range(CFG["maxlen"] + 1) for w in itertools.product(names, repeat=ln)]
     baut = cm.Automaton(S.to_oracle(base), S.SUBST)
     STATE.update(base=base, derived=derived, bg=bg, dg=dg, dparts=dparts, n=len(dparts), words=words,
@@ -235,6 +237,9 @@ def pairs():
             out.append((b, Sq(E('a')), "wildcard-to-element"))
         if any(n[0] == 'e' and n[1] == 'h' for n in nodes):
             out.append((b, Sq(E('m'), E('a')), "substitution-member"))
+        if any(n[0] == 'w' for n in nodes):
+            for kind in ('any', 'other', 'local', 'tns', 'ext'):
+                out.append((b, S.replace_wildcards(plain, kind), "wildcard-to-%s" % kind))
         # a different element in place of the first one (should never be accepted unless emptiable tricks)
         out.append((b, Sq(E('c')), "foreign-element"))
         out.append((b, Sq(E('a'), E('a')), "repeated-element"))
